@@ -210,6 +210,10 @@ def evaluate(case):
                 so = list(coll.sorted_repos)
                 if so.index("main") < 2 or ("app" in so and so.index("app") < so.index("main")):
                     f.append(("component_not_analysed_first", f"sorted_repos={coll.sorted_repos}"))
+            for i in range(case.get("prior", 0)):
+                # earlier reports made with the same collection object (for the same or for another search text)
+                coll.make_reports_data([case["search"], "no-such-text"][(i + case.get("prior", 0)) % 2])
+                classes.add("collection_already_produced_%d_reports" % case["prior"])
             data = dict(coll.make_reports_data(case["search"]))
             if case.get("render"):
                 str(coll.make_report(case["search"]).ch_text(no_color=True))
@@ -460,7 +464,8 @@ def st_case(draw, merges=False):
     for c in pcommits:
         c.pop("pin_i")
     case = {"search": search, "comp": {"commits": ccommits}, "parent": {"commits": pcommits, "branches": branches},
-            "order_rot": draw(st.integers(0, 2)), "render": draw(st.integers(0, 4)) == 0}
+            "order_rot": draw(st.integers(0, 2)), "render": draw(st.integers(0, 4)) == 0,
+            "prior": draw(st.sampled_from([0, 0, 0, 1, 1, 2, 3]))}
     if draw(st.integers(0, 3)) == 0:
         n2 = draw(st.integers(1, 4))
         nums2 = sorted(draw(st.lists(st.integers(1, 300), min_size=n2, max_size=n2, unique=True)))
